@@ -213,6 +213,12 @@ func handleReq(rq wproto.Req) (rp wproto.Rep) {
 		if rq.CancelAt != nil && *rq.CancelAt < 0 {
 			cancelUser()
 		}
+		for _, st := range rq.Plan {
+			if st.Point == "env.cancel.pre" { // the plan says when the caller cancels: a goroutine waits at the gate for its turn
+				go func() { hc.hook("env.cancel.pre", 0, ""); cancelUser() }()
+				break
+			}
+		}
 		opts = append(opts, gtree.WithMassive(ctx))
 	}
 	var jail string
